@@ -123,6 +123,11 @@ def _run(ctx):
     for cfgname, p in progs:
         check_prog(ctx, rep, cfgname, p)
     check_all_or_nothing(rep, prog)
+    rep.rule("LOCK-8", "an update applied under the lock is COMPLETE: the S1 and M1/M2 rewrites assign every field of the "
+                       "parent / current / time-properties group they replace (a field left out keeps the value of the "
+                       "previous update, so every later snapshot mixes two updates) - shared with C11 ANN-2", floor=15)
+    from rules import share as _share
+    _share.share(ctx, rep, "c11", "ANN-2", "LOCK-8")
 
 
 def check_prog(ctx, rep, cfgname, prog):
